@@ -263,4 +263,76 @@ theorem handleDisconnect_post {s : Srv} (h : Inv s) {c ts} (hc : get? s.clients 
     · rw [b6, a7]; simp [s1, Srv.emit, clientReplies, Out.reply?]
     · exact b9 (by rw [tk2]; exact h.tkNodup)
 
+theorem Inv.mbOwner_eq {s : Srv} (h : Inv s) {t m c} (ht : get? s.tasks t = some (m, c)) :
+    mbOwner s m = some c := by
+  simp [BqVerif.Server.mbOwner, (h.tk _ _ _ ht).2.1, ht]
+
+theorem filter_owner_some {e : Mid × Conn} {c : Conn} {o : Option (Mid × Conn)} {x : Mid × Conn}
+    (h : (o.filter (fun e => e.2 != c)) = some x) : o = some x ∧ x.2 ≠ c := by
+  cases o with
+  | none => simp [Option.filter] at h
+  | some y =>
+    simp only [Option.filter] at h
+    by_cases hy : (y.2 != c) = true
+    · simp [hy] at h; subst h; exact ⟨rfl, by simpa using hy⟩
+    · simp [hy] at h
+
+theorem Inv.disc {s s' : Srv} (h : Inv s) {c} (p : DiscPost s c s') : Inv s' := by
+  have tk' : ∀ t m c', get? s'.tasks t = some (m, c') → get? s.tasks t = some (m, c') ∧ c' ≠ c := by
+    intro t m c' ht
+    rw [p.tasks t] at ht
+    exact filter_owner_some (e := (m, c')) ht
+  have tk'' : ∀ t m c', get? s.tasks t = some (m, c') → c' ≠ c → get? s'.tasks t = some (m, c') := by
+    intro t m c' ht hne
+    rw [p.tasks t, ht]; simp [Option.filter, hne]
+  constructor
+  · exact p.nodup
+  · intro c' ts' hc'
+    rw [p.clients c'] at hc'
+    by_cases e : c = c'
+    · simp [e] at hc'
+    · simp [e] at hc'; exact h.clNodup _ _ hc'
+  · intro c' ts' t' hc' ht'
+    rw [p.clients c'] at hc'
+    by_cases e : c = c'
+    · simp [e] at hc'
+    · simp [e] at hc'
+      obtain ⟨m', b', x, y⟩ := h.clSub _ _ _ hc' ht'
+      have ne : c' ≠ c := fun z => e z.symm
+      refine ⟨m', b', tk'' _ _ _ x ne, ?_⟩
+      rw [p.boxes m', h.mbOwner_eq x]; simp [ne, y]
+  · intro t' m' c' ht'
+    obtain ⟨x, ne⟩ := tk' _ _ _ ht'
+    obtain ⟨⟨ts', y⟩, z, w⟩ := h.tk _ _ _ x
+    have ne' : ¬ c = c' := fun z => ne z.symm
+    refine ⟨⟨ts', by rw [p.clients c']; simp [ne', y]⟩, ?_, by rw [p.counter]; exact w⟩
+    rw [p.m2t m', h.mbOwner_eq x]; simp [ne, z]
+  · intro m' t' hm'
+    rw [p.m2t m'] at hm'
+    by_cases e : mbOwner s m' = some c
+    · simp [e] at hm'
+    · simp [e] at hm'
+      obtain ⟨c', x⟩ := h.mt _ _ hm'
+      have : c' ≠ c := by intro z; subst z; exact e (h.mbOwner_eq x)
+      exact ⟨c', tk'' _ _ _ x this⟩
+  · intro m' b' hb'
+    rw [p.boxes m'] at hb'
+    by_cases e : mbOwner s m' = some c
+    · simp [e] at hb'
+    · simp [e] at hb'
+      obtain ⟨t', c', ts', x, y, z⟩ := h.bx _ _ hb'
+      have ne : c' ≠ c := by intro z; subst z; exact e (h.mbOwner_eq x)
+      have ne' : ¬ c = c' := fun z => ne z.symm
+      exact ⟨t', c', ts', tk'' _ _ _ x ne, by rw [p.clients c']; simp [ne', y], z⟩
+  · intro c' hc'
+    rw [p.closed] at hc'
+    rw [p.clients c']
+    by_cases e : c = c'
+    · simp [e]
+    · simp [e]
+      rcases List.mem_cons.mp hc' with z | z
+      · exact absurd z.symm e
+      · exact h.closed c' z
+  · rw [p.running]; exact h.running
+
 end BqVerif.Server
